@@ -36,7 +36,7 @@ META = dict(
           "chunks were submitted for some component, plus distinct "
           "(kernel, network, partition) with >= 2 parts."),
     floors={"quick": {"multi_chunk_runs": 60, "partitions_checked": 300,
-                      "protocol_checked": 100},
+                      "protocol_checked": 100, "spawn_pool_runs": 3},
             "thorough": {"multi_chunk_runs": 600, "partitions_checked": 3000,
                          "protocol_checked": 1000}},
     exhaustive_subspaces={
@@ -402,10 +402,14 @@ import sys, json, numpy as np
 from pyunicorn.core import Network
 A = np.array(json.loads(sys.argv[1]), dtype=np.int8)
 w = np.array(json.loads(sys.argv[2]))
+variants = json.loads(sys.argv[3])
 if __name__ == "__main__":
-    a = Network(adjacency=A, node_weights=w, silence_level=3).nsi_betweenness(parallelize=True)
-    b = Network(adjacency=A, node_weights=w, silence_level=3).nsi_betweenness(parallelize=False)
-    print("RESULT", json.dumps([a.tolist(), b.tolist()]))
+    out = []
+    for kw in variants:
+        a = Network(adjacency=A, node_weights=w, silence_level=3).nsi_betweenness(parallelize=True, **kw)
+        b = Network(adjacency=A, node_weights=w, silence_level=3).nsi_betweenness(parallelize=False, **kw)
+        out.append([a.tolist(), b.tolist()])
+    print("RESULT", json.dumps(out))
 """
 
 
@@ -418,8 +422,16 @@ def pool_cases(ctx):
         if not ctx.want(cid):
             continue
         r = ctx.rng("pool", i)
-        A = G.random_graph(r, 5, 40)
-        w = G.pos_weights(r, len(A))
+        A = G.random_graph(r, 8, 40)
+        n = len(A)
+        w = G.pos_weights(r, n)
+        perm = r.permutation(n)
+        src = sorted(perm[: n // 2].tolist())
+        tgt = sorted(perm[n // 3:].tolist())
+        # the pool splits the *targets* into batches: restricted target
+        # sets (the interregional use) must be honoured as in serial mode
+        variants = [{}, {"targets": tgt}, {"sources": src, "targets": tgt},
+                    {"sources": src}]
         d = tempfile.mkdtemp(dir=os.environ.get("PVM_TMP", "."))
         script = os.path.join(d, "pool_case.py")
         with open(script, "w") as fh:
@@ -427,7 +439,7 @@ def pool_cases(ctx):
         try:
             p = subprocess.run(
                 [sys.executable, script, json.dumps(A.tolist()),
-                 json.dumps(w.tolist())], timeout=240,
+                 json.dumps(w.tolist()), json.dumps(variants)], timeout=400,
                 stdout=subprocess.PIPE, stderr=subprocess.PIPE, text=True)
         except subprocess.TimeoutExpired:
             ctx.count("pool_timeouts_inconclusive")
@@ -438,13 +450,16 @@ def pool_cases(ctx):
             ctx.violation("nsi_betweenness:parallelize=True:raises",
                           {"stderr": p.stderr[-800:]}, cid)
             continue
-        a, b = json.loads(line[0][7:])
-        ctx.count("spawn_pool_runs")
-        ctx.nontrivial(("pool", i, G.canon_key(A)))
-        if not close(a, b):
-            ctx.violation("nsi_betweenness:parallelize=True!=serial",
-                          {"edges": np.argwhere(np.triu(A)).tolist(),
-                           "weights": w, "parallel": a, "serial": b}, cid)
+        for kw, (a, b) in zip(variants, json.loads(line[0][7:])):
+            pat = "+".join(sorted(kw)) or "all-nodes"
+            ctx.count("spawn_pool_runs")
+            ctx.nontrivial(("pool", i, pat, G.canon_key(A)))
+            if not close(a, b):
+                ctx.violation(f"nsi_betweenness:parallelize=True!=serial:"
+                              f"{pat}",
+                              {"edges": np.argwhere(np.triu(A)).tolist(),
+                               "weights": w, **kw, "parallel": a,
+                               "serial": b}, cid)
 
 
 def run(ctx):
